@@ -68,8 +68,10 @@ def build_note(sp):
 
 
 def build_melody(sp):
+    """a melody of the spec; its bar count (what `a | b` records) varies with the spec — no duration may depend on it
+    (seed C10-4)"""
     from musiclang import Melody
-    return Melody([build_note(x) for x in sp])
+    return Melody([build_note(x) for x in sp], nb_bars=(1, 1, 2, 1, 3)[len(sp) % 5])
 
 
 def build_chord(sp):
